@@ -134,9 +134,17 @@ def run(ctx):
     for c in calls:
         a = c.args()
         t = unparse(a[2])
-        ok = "<< opcode_ex[j].shift" in t and unparse(a[1]) == "i"
-        rep.check(ok, "D3-PREFIX", where(ee), "emulateN(%s)" % t[:40], "x2/x4 only scale the element count; offset is the chunk start",
-                  "emulateN is called with n=`%s`, offset=`%s`" % (t, unparse(a[1])), line=c.line)
+        # an x2/x4 instruction works on 2/4 lanes per element: lane count AND index of the chunk's first lane are both scaled by
+        # the instruction's shift (explicit x2/x4 loads and stores index the arrays with offset + i)
+        def scaled(e, what):
+            e = strip_casts(e)
+            return e is not None and e.k == "BinaryOperator" and e.op == "<<" and unparse(e.c[1]).replace(" ", "").endswith("opcode_ex[j].shift") and what(strip_casts(e.c[0]))
+        is_i = lambda x: x is not None and access_path(x) == "i"
+        is_cnt = lambda x: x is not None and (x.v is not None or "i" in {access_path(y) for y in x.walk()})
+        ok = scaled(a[2], is_cnt) and scaled(a[1], is_i)
+        rep.check(ok, "D3-PREFIX", where(ee), "emulateN(%s)" % t[:40], "x2/x4 scale the lane count and the index of the chunk's first lane alike",
+                  "emulateN is called with offset=`%s`, n=`%s`: for an x2/x4 instruction the lane count and the first lane of the chunk must both be the "
+                  "element values shifted by the instruction's shift, or explicit x2/x4 loads and stores index every chunk after the first wrongly" % (unparse(a[1]), t), line=c.line)
     src = emus_dispatch_source(ee)
     rep.check(src, "D3-PREFIX", where(ee), "emulateN-from-opcode", "emulateN is taken from the instruction's own opcode",
               "orc_executor_emulate no longer takes emulateN from insn->opcode")
